@@ -54,7 +54,7 @@ def _run_history(job):
                         if k.startswith("buf"):
                             f["ls"] = ["H" if x == "subject_name" else x for x in f["ls"]]
         return {"tag": tag, "scn": scn_args, "sessions": sessions, "strict": strict, "own": own, "flags": flags,
-                "obs": h.obs_trace(), "deadlock": h.deadlock, "hang": h.hang, "failed": h.failed_calls,
+                "obs": h.obs_trace(), "deadlock": h.deadlock, "hang": h.hang, "failed": h.failed_calls, "anomalies": h.anomalies,
                 "schedule": h.schedule, "nevents": len(h.events), "scen_json": h.scen_json(own, flags["headeronempty"], flags["headernoclaim"]),
                 "ops": [(e["p"], e["op"]) for e in h.events]}
     finally:
@@ -110,17 +110,30 @@ def validate_histories(v: Verdict, results, prop: str):
         for viol in r.violations:
             tid = int(viol["vars"]["tid"])
             bad_obs.setdefault(tid, (viol["inv"], int(viol["vars"].get("l", "0"))))
+        anomalous = []
         for i, res in enumerate(results, start=1):
             site = site_of(res)
             if res["deadlock"]:
                 v.violation("Deadlock", site, case_of(res), what=f"no grantable thread: {res['deadlock']}")
             elif res["hang"]:
                 v.violation("Hang", site, case_of(res), what=res["hang"])
+            if res.get("anomalies"):
+                anomalous.append((res, site))
             if i in bad_obs:
                 clause, l = bad_obs[i]
                 site = dict(site)
                 site["at_op"] = res["ops"][l - 1][1] if 0 < l <= len(res["ops"]) else ""
                 v.violation(clause, site, case_of(res), what=f"{res['tag']} scenario={res['scn'].get('name')} at event {l}")
+        # a lock that let two workers in at once is a mechanism-level observation: it is reported as a
+        # violation only together with an outcome-level violation found in this run, otherwise as ANOMALY
+        if anomalous:
+            v.cov["lock_anomalies"] = v.cov.get("lock_anomalies", 0) + len(anomalous)
+            if v.violations:
+                for res, site in anomalous[:5]:
+                    v.violation(res["anomalies"][0]["kind"], site, case_of(res), what=f"{res['tag']} scenario={res['scn'].get('name')}: {res['anomalies'][0]}")
+            else:
+                print(f"ANOMALY property={prop} {len(anomalous)} histories in which a lock admitted a second worker "
+                      f"({anomalous[0][0]['anomalies'][0]}), but every observable invariant held", flush=True)
         # ---- strict: the binding to Aggregator.tla (rejection with AggObs satisfied = DRIFT) ----
         groups = {}
         for i, res in enumerate(results):
@@ -165,7 +178,7 @@ def validate_histories(v: Verdict, results, prop: str):
 def site_of(res):
     scn = res["scn"]
     kills = [s.get("kill_at") for s in res["sessions"]]
-    return {"scenario": scn.get("name", ""), "init": scn["init"], "aggs": len(scn["aggs"]), "same_dir": scn.get("same_dir", True),
+    return {"scenario": scn.get("name", ""), "workers": scn.get("workers", "threads"), "init": scn["init"], "aggs": len(scn["aggs"]), "same_dir": scn.get("same_dir", True),
             "killed": any(k is not None for k in kills), "sessions": len(res["sessions"]),
             "subject_named_like_header": any(c["subj"] == "subject_name" for c in scn["calls"])}
 
@@ -227,6 +240,9 @@ C16_SCENARIOS = [
     scn("four", ["A"], [E("A", "a"), E("A", "b"), E("A", "c"), E("A", "d")], init="header"),
     scn("continue+stat", ["A"], [E("A", "a"), E("A", "b"), S("A"), E("A", "z")], init="rows", prior=["z"]),
     scn("header-named", ["A"], [E("A", "subject_name"), E("A", "a")]),
+    # the same calls by forked worker processes (the real lock objects decide who gets in)
+    scn("dup-processes", ["A"], [E("A", "a"), E("A", "b"), E("A", "a")], workers="processes"),
+    scn("four-processes+stat", ["A"], [E("A", "a"), E("A", "b"), E("A", "c"), S("A")], init="header", workers="processes"),
 ]
 MC16 = {"dup+stat": "MC_Agg_c16_dup.cfg", "triple": "MC_Agg_c16_triple.cfg", "four": "MC_Agg_c16_four.cfg"}
 
